@@ -287,6 +287,25 @@ def stage1 : Stmt → Bool
   | .blk s => stage1 s
   | .ifIter _ s => stage1 s
 
+/-- every break / continue of the statement has a target in the (shape of the) static context: the source-level
+condition under which goja's compiler does not report "Could not find block" -/
+def targetsOK : Stmt → Option Label → List BS → Bool
+  | .brk l, _, sh => (exitLen l true sh).isSome
+  | .cont l, _, sh => (exitLen l false sh).isSome
+  | .seq a b, _, sh => targetsOK a none sh && targetsOK b none sh
+  | .tryS _ b hasC c hasF f, _, sh =>
+    targetsOK b none (.try_ :: sh) && (!hasC || targetsOK c none (.scope :: .try_ :: sh)) && (!hasF || targetsOK f none (.try_ :: sh))
+  | .loop .forlet _ _ body, lab, sh => targetsOK body none (.iscope :: .loop lab :: sh)
+  | .loop .forin _ _ _, _, _ => true
+  | .loop _ _ _ body, lab, sh => targetsOK body none (.loop lab :: sh)
+  | .forOf _ _, _, _ => true
+  | .lbl l s, _, sh => if isLoop s then targetsOK s (some l) sh else targetsOK s none (.label l :: sh)
+  | .sw _ _ a b, _, sh => targetsOK a none (.switch_ :: sh) && targetsOK b none (.switch_ :: sh)
+  | .withS s, _, sh => targetsOK s none (.with_ :: sh)
+  | .blk s, _, sh => targetsOK s none (.scope :: sh)
+  | .ifIter _ s, _, sh => targetsOK s none sh
+  | _, _, _ => true
+
 /-- executable check that the compositional emission and the back-patching mirror of compiler_stmt.go
 produce the same instruction list for `p` (the driver evaluates it for every generated stage-1 program) -/
 def sameCode (p : Stmt) : Bool := (compileS p).toArray == compileProgram p
